@@ -68,6 +68,8 @@ theorem C18_inert_denotes (t : Tmpl) (h : wfT [[]] t = true) (hi : isInert t = t
   | comp k => simp [isInert] at hi
   | comment c => simp [isInert] at hi
   | doctype => simp [isInert] at hi
+  | unit => simp [isInert] at hi
+  | compA c a k => simp [isInert] at hi
 
 /-- **both paths yield the same document** for every element the macro may print at compile time. -/
 theorem C18_paths_agree (t : Tmpl) (h : wfT [[]] t = true) (hi : isInert t = true) :
@@ -88,6 +90,7 @@ mutual
 theorem expHtmlAsync_eq : (e : Exp) → ∀ (ooo esc : Bool) (pos : Pos), expHtmlAsync ooo esc pos e = expHtml esc pos e
   | .text s, _, _, _ => by simp [expHtmlAsync, expHtml]
   | .inert h, _, _, _ => by simp [expHtmlAsync, expHtml]
+  | .unit, _, _, _ => by simp [expHtmlAsync, expHtml]
   | .elem tag attrs kids, ooo, _, _ => by
     simp [expHtmlAsync, expHtml, expKidsHtmlAsync_eq kids ooo]
 theorem expKidsHtmlAsync_eq : (es : List Exp) → ∀ (ooo esc : Bool) (pos : Pos),
@@ -128,7 +131,7 @@ theorem kidsHtml_noText (ns : List Node) (h : ns.all (fun n => !isTextNode n) = 
     | text s => simp [isTextNode] at h
     | elem tag attrs kids => simp [kidsHtml, nodeHtml, ih h.2]
 
-theorem expKidsHtml_noText (es : List Exp) (h : es.all (fun e => match e with | .text _ => false | _ => true) = true)
+theorem expKidsHtml_noText (es : List Exp) (h : es.all (fun e => match e with | .text _ => false | .unit => false | _ => true) = true)
     (e : Bool) (pos : Pos) : expKidsHtml e pos es = expKidsHtml true pos es := by
   induction es generalizing pos with
   | nil => simp [expKidsHtml]
@@ -137,6 +140,7 @@ theorem expKidsHtml_noText (es : List Exp) (h : es.all (fun e => match e with | 
     cases x with
     | text s => simp at h
     | inert hh => simp [expKidsHtml, expHtml, ih h.2]
+    | unit => simp at h
     | elem tag attrs kids => simp [expKidsHtml, expHtml, ih h.2]
 
 theorem inertKidsHtml_elems : (ks : List Tmpl) → allElemsT ks = true → ∀ e, inertKidsHtml e ks = inertKidsHtml true ks
@@ -152,6 +156,8 @@ theorem inertKidsHtml_elems : (ks : List Tmpl) → allElemsT ks = true → ∀ e
     | frag k => simp at h
     | comp k => simp at h
     | doctype => simp at h
+    | unit => simp at h
+    | compA c a k => simp at h
 
 theorem builderKids_noText : (ks : List Tmpl) → allElemsT ks = true →
     (builderKids ks).all (fun n => !isTextNode n) = true
@@ -170,9 +176,11 @@ theorem builderKids_noText : (ks : List Tmpl) → allElemsT ks = true →
     | frag k => simp at h
     | comp k => simp at h
     | doctype => simp at h
+    | unit => simp at h
+    | compA c a k => simp at h
 
 theorem expandKids_noText (top : Bool) : (ks : List Tmpl) → allElemsT ks = true →
-    (expandKids top ks).all (fun e => match e with | .text _ => false | _ => true) = true
+    (expandKids top ks).all (fun e => match e with | .text _ => false | .unit => false | _ => true) = true
   | [], _ => by simp [expandKids]
   | t :: ts, h => by
     simp only [allElemsT, List.all_cons, Bool.and_eq_true] at h
@@ -187,6 +195,8 @@ theorem expandKids_noText (top : Bool) : (ks : List Tmpl) → allElemsT ks = tru
     | frag k => simp at h
     | comp k => simp at h
     | doctype => simp at h
+    | unit => simp at h
+    | compA c a k => simp at h
 
 /-- the real expansion of children of an element (`top = false`: they may be printed at macro time) denotes them -/
 theorem macro_denotes_top (top : Bool) (ts : List Tmpl) (h : wfTs [[]] ts = true) :
@@ -328,6 +338,9 @@ theorem C18_twin_same_view : (t : Tmpl) → builderView (dynamize t) = builderVi
   | .comp kids => by simp [dynamize, builderView, C18_twin_same_view_kids kids]
   | .comment _ => by simp [dynamize]
   | .doctype => by simp [dynamize]
+  | .unit => by simp [dynamize]
+  | .compA card attrs kids => by
+    simp [dynamize, builderView, List.map_map, Function.comp_def, builderAttr_dyn, C18_twin_same_view_kids kids]
 theorem C18_twin_same_view_kids : (ts : List Tmpl) → builderKids (dynKids ts) = builderKids ts
   | [] => by simp [dynKids, builderKids]
   | t :: ts => by simp [dynKids, builderKids, C18_twin_same_view t, C18_twin_same_view_kids ts]
@@ -354,6 +367,13 @@ theorem styleSrc_dyn (attrs : List TAttr) : styleSrc (attrs.map dynAttr) = style
 theorem denAttrs_dyn (attrs : List TAttr) : denAttrs (attrs.map dynAttr) = denAttrs attrs := by
   simp [denAttrs, plainDen_dyn, sortAttrs_dyn, classSrc_dyn, styleSrc_dyn]
 
+theorem spreadDen_dyn (attrs : List TAttr) : spreadDen (attrs.map dynAttr) = spreadDen attrs := by
+  simp [spreadDen, plainDen_dyn, classSrc_dyn, styleSrc_dyn]
+
+theorem spreadDen_card_dyn (attrs : List TAttr) :
+    spreadDen (TAttr.cls false sCard :: attrs.map dynAttr) = spreadDen (TAttr.cls false sCard :: attrs) := by
+  simp [spreadDen, plainDen, classSrc, styleSrc, plainDen_dyn, classSrc_dyn, styleSrc_dyn]
+
 mutual
 /-- … and denotes the same document -/
 theorem C18_twin_same_meaning : (t : Tmpl) → ∀ esc acc, denK esc (dynamize t) acc = denK esc t acc
@@ -364,6 +384,9 @@ theorem C18_twin_same_meaning : (t : Tmpl) → ∀ esc acc, denK esc (dynamize t
   | .comp kids, _, _ => by simp [dynamize, denK, C18_twin_same_meaning_kids kids]
   | .comment _, _, _ => by simp [dynamize]
   | .doctype, _, _ => by simp [dynamize]
+  | .unit, _, _ => by simp [dynamize]
+  | .compA card attrs kids, _, _ => by
+    simp [dynamize, denK, spreadDen_dyn, spreadDen_card_dyn, C18_twin_same_meaning_kids kids]
 theorem C18_twin_same_meaning_kids : (ts : List Tmpl) → ∀ esc acc, denKs esc (dynKids ts) acc = denKs esc ts acc
   | [], _, _ => by simp [dynKids, denKs]
   | t :: ts, esc, acc => by simp [dynKids, denKs, C18_twin_same_meaning t, C18_twin_same_meaning_kids ts]
@@ -832,6 +855,59 @@ example :
        '1','&','l','t',';','2','&','a','m','p',';','<','/','p','>','<','/','d','i','v','>'] ∧
     macroHtml [.elem sDiv [] [.elem sP [.plain true ['i','d'] ['s']] [.elem tStyle [] [.text ['p','{','}']], .text ['1','<','2','&']]]] =
       macroHtml [.elem sDiv [] [.elem sP [.plain false ['i','d'] ['s']] [.elem tStyle [] [.text ['p','{','}']], .text ['1','<','2','&']]]] := by
+  decide
+
+/-! ### blocks of unit type and components with spread attributes (outside `wfT`: C06's `Node` has neither a
+unit view nor a component; covered by the correspondence run, by the facts below and by evaluation) -/
+
+/-- a block of unit type (`{()}`, `{}`, a statement-only block, `{None::<String>}`, an empty `Vec`) contributes
+nothing to the document the template denotes, wherever it stands -/
+theorem C18_unit_denotes_nothing (esc : Bool) (acc : List Tree) : denK esc .unit acc = acc := by
+  simp [denK]
+
+/-- … and it never removes its siblings: first, middle and last position among text and element siblings, on a
+hole-free and on a dynamic parent — the rendered document is what the template denotes -/
+example :
+    macroHtml [.elem sDiv [] [.elem sP [.plain false ['i','d'] ['s']] [.text ['a',' '], .unit, .elem ['b'] [] [.text ['x']], .text [' ','z']]]] =
+      ['<','d','i','v','>','<','p',' ','i','d','=','"','s','"','>','a',' ','<','!','>','<','b','>','x','<','/','b','>',' ','z','<','/','p','>','<','/','d','i','v','>'] ∧
+    normalize (parse (macroHtml [.elem sDiv [] [.elem sP [.plain false ['i','d'] ['s']] [.text ['a',' '], .unit, .elem ['b'] [] [.text ['x']], .text [' ','z']]]])) =
+      some (denote [.elem sDiv [] [.elem sP [.plain false ['i','d'] ['s']] [.text ['a',' '], .unit, .elem ['b'] [] [.text ['x']], .text [' ','z']]]]) ∧
+    normalize (parse (macroHtml [.elem sP [.plain true ['i','d'] ['s']] [.unit, .text ['t'], .unit]])) =
+      some (denote [.elem sP [.plain true ['i','d'] ['s']] [.unit, .text ['t'], .unit]]) := by
+  decide
+
+theorem plain_mem_plainDen (attrs : List TAttr) (d : Bool) (n v : Str) (h : TAttr.plain d n v ∈ attrs) :
+    (n, v) ∈ plainDen attrs := by
+  induction attrs with
+  | nil => simp at h
+  | cons a r ih =>
+    rcases List.mem_cons.mp h with rfl | h
+    · simp [plainDen]
+    · have := ih h
+      cases a with
+      | boolDyn m b => cases b <;> simp [plainDen, this]
+      | _ => simp [plainDen, this]
+
+/-- **spread attribute names**: every `attr:NAME="v"` / `attr:NAME={v}` on `<Wrap>` reaches the component's root
+element under exactly the name written — one word, dashed, several dashes, `aria-*`, `data-*`, or a name whose first
+segment is itself a typed attribute function — with exactly its value -/
+theorem C18_spread_names (attrs : List TAttr) (kids : List Tmpl) (d : Bool) (n v : Str)
+    (h : TAttr.plain d n v ∈ attrs) (acc : List Tree) :
+    ∃ as ks, denK true (.compA false attrs kids) acc = .elem sSection as ks :: acc ∧ (n, v) ∈ as := by
+  refine ⟨spreadDen attrs, denKs true kids [], by simp [denK], ?_⟩
+  simp only [spreadDen, List.mem_append]
+  exact Or.inl (Or.inl (plain_mem_plainDen attrs d n v h))
+
+/-- evaluated: `<Wrap attr:data-kind="i" class:on={true} attr:accept-charset="u">"c"</Wrap>` and the same on `<Card>`
+(own `role` / `class` first) -/
+example :
+    macroHtml [.compA false [.plain false ['d','a','t','a','-','k','i','n','d'] ['i'], .clsToggle ['o','n'] true,
+                 .plain false ['a','c','c','e','p','t','-','c','h','a','r','s','e','t'] ['u']] [.text ['c']]] =
+      ['<','s','e','c','t','i','o','n',' ','d','a','t','a','-','k','i','n','d','=','"','i','"',' ',
+       'a','c','c','e','p','t','-','c','h','a','r','s','e','t','=','"','u','"',' ','c','l','a','s','s','=','"','o','n','"','>','c',
+       '<','/','s','e','c','t','i','o','n','>'] ∧
+    normalize (parse (macroHtml [.compA true [.plain false ['d','a','t','a','-','k'] ['i'], .cls false ['k']] [.text ['c']]])) =
+      some (denote [.compA true [.plain false ['d','a','t','a','-','k'] ['i'], .cls false ['k']] [.text ['c']]]) := by
   decide
 
 /-- a context with a hole (`C18_static_parts_stable`): static content and a dynamic block in the same hole -/
